@@ -31,7 +31,13 @@ MUTANTS = {
     'tet-collapse-end-not-replaced': ('C15', TK, 'VertexHandle newEnd   = (e.to_vertex()   == from_vh) ? to_vh : e.to_vertex();', 'VertexHandle newEnd   = e.to_vertex();', 'collapse-1'),
     'tet-collapse-skips-collapsing-test': ('C15', TK, 'if (collapsingCells.find(ch) != collapsingCells.end())\n            continue;', 'if (false)\n            continue;', 'collapse-1'),
     'tet-add-face-valence-guard': ('C15', TK, 'FaceHandle TetrahedralMeshTopologyKernel::add_face(std::vector<HalfEdgeHandle> _halfedges, bool _topologyCheck) {\n\n    if(_halfedges.size() != 3) {', 'FaceHandle TetrahedralMeshTopologyKernel::add_face(std::vector<HalfEdgeHandle> _halfedges, bool _topologyCheck) {\n\n    if(_halfedges.size() < 3) {', 'additions'),
-    'tet-label-table-entry': ('C15', TTH, 'if constexpr (HFL == BDC || HFL == DAC || HFL == ABC) {return C;}', 'if constexpr (HFL == BDC || HFL == DAC || HFL == ABD) {return C;}', 'labels'),
+    # the labels BDC and BCD exchange their second and third vertex in the header's table (compiles: the table stays a bijection)
+    'tet-label-table-entry': ('C15', TTH,
+                              ('if constexpr (HFL == BDC || HFL == CDA || HFL == ADB) {return D;}', 'if constexpr (HFL == BCD || HFL == DCA || HFL == ACB) {return C;}',
+                               'if constexpr (HFL == BDC || HFL == DAC || HFL == ABC) {return C;}', 'if constexpr (HFL == BCD || HFL == CAD || HFL == ABD) {return D;}'),
+                              ('if constexpr (HFL == BCD || HFL == CDA || HFL == ADB) {return D;}', 'if constexpr (HFL == BDC || HFL == DCA || HFL == ACB) {return C;}',
+                               'if constexpr (HFL == BCD || HFL == DAC || HFL == ABC) {return C;}', 'if constexpr (HFL == BDC || HFL == CAD || HFL == ABD) {return D;}'),
+                              'labels'),
     'tet-label-getlabel-halfedge': ('C15', TTC, 'return opposite(hel);', 'return hel;', 'labels'),
     'tet-label-constructor-cd': ('C15', TTC, 'hfh<ACD>() = cur_hfh;\n                heh_[CD] = *heh_it;', 'hfh<ACD>() = cur_hfh;\n                heh_[CD] = heh;', 'labels'),
     'tet-triangle-start': ('C15', TRC, 'if (idx == 0 && _mesh.from_vertex_handle(heh) != _a) {', 'if (idx == 0 && _mesh.to_vertex_handle(heh) != _a) {', 'labels'),
@@ -69,9 +75,15 @@ def main():
             prop, rel, old, new, confs = MUTANTS[name]
             path = os.path.join(src, rel)
             orig = open(path).read()
-            if orig.count(old) != 1:
+            olds, news = (old, new) if isinstance(old, tuple) else ((old,), (new,))
+            if any(orig.count(o) != 1 for o in olds):
                 rows.append((name, prop, 'PATTERN-NOT-FOUND')); print(rows[-1], flush=True); continue
-            open(path, 'w').write(orig.replace(old, new))
+            mutated = orig
+            for o, n_ in zip(olds, news):
+                mutated = mutated.replace(o, '@@%d@@' % olds.index(o))
+            for i, n_ in enumerate(news):
+                mutated = mutated.replace('@@%d@@' % i, n_)
+            open(path, 'w').write(mutated)
             os.environ['VERIF_ONLY'] = confs
             buf = io.StringIO()
             t1 = time.time()
